@@ -93,6 +93,77 @@ def obligations():
     return obs
 
 
+def asn1_sig_obligations():
+    """br_ecdsa_asn1_to_raw: SEQUENCE { INTEGER r, INTEGER s } with exact length agreement (the converter is documented as lenient on
+    minimality only): wrong tags, a SEQUENCE length that is not exactly the rest of the input (short and long form), INTEGER lengths
+    of 128 or more, an s that does not end exactly at the end of the input, all make it return 0.  Shared with C04 (certificate
+    signatures go through this converter: a changed length byte must not be accepted)."""
+    from ..oblig import ByteLoad
+    s = 'src/ec/ecdsa_atr.c'
+    f = 'br_ecdsa_asn1_to_raw'
+    R = 'ecdsa-asn1-lengths-exact'
+    SL = Var('sig_len', 'param')
+    B = lambda n, nm, **k: ByteLoad(0, n, nm, **k)
+    obs = [
+        Ob(s, f, SL, ('assume', 'ult', 8), RET(0), ('assume', 'ugt', 100), 'fewer than 8 bytes', rule=R),
+        Ob(s, f, B(0, 'SEQUENCE tag'), ('pin', 0x31), RET(0), ('pin', 0x30), 'first byte is not the SEQUENCE tag', rule=R),
+        Ob(s, f, B(1, 'SEQUENCE length byte'), ('pin', 0x82), RET(0), ('pin', 0x20), 'length of length above 1', rule=R),
+        Ob(s, f, B(2, 'long-form SEQUENCE length', widened=True), ('pinexpr', 'sub', SL, 4), RET(0), ('pinexpr', 'sub', SL, 3),
+           'long form (30 81 xx): declared length one less than the remaining bytes', rule=R, extra_hyps=[(B(1, 'SEQUENCE length byte'), ('pin', 0x81))]),
+        Ob(s, f, B(2, 'long-form SEQUENCE length', widened=True), ('pinexpr', 'sub', SL, 2), RET(0), None,
+           'long form (30 81 xx): declared length one more than the remaining bytes', rule=R, extra_hyps=[(B(1, 'SEQUENCE length byte'), ('pin', 0x81))]),
+        Ob(s, f, B(1, 'short-form SEQUENCE length', widened=True), ('pinexpr', 'sub', SL, 3), RET(0), ('pinexpr', 'sub', SL, 2),
+           'short form: declared length one less than the remaining bytes', rule=R, extra_hyps=[(SL, ('assume', 'ult', 0x80))]),
+        Ob(s, f, B(1, 'short-form SEQUENCE length', widened=True), ('pinexpr', 'sub', SL, 1), RET(0), None,
+           'short form: declared length one more than the remaining bytes', rule=R, extra_hyps=[(SL, ('assume', 'ult', 0x80))]),
+        Ob(s, f, B(3, 'INTEGER tag of r'), ('pin', 3), RET(0), ('pin', 2), 'r is not an INTEGER', rule=R),
+        Ob(s, f, B(4, 'length of r'), ('pin', 0x80), RET(0), ('pin', 0x20), 'length of r is 128 or more', rule=R),
+        Ob(s, f, B(5, 'INTEGER tag of s'), ('pin', 3), RET(0), ('pin', 2), 's is not an INTEGER', rule=R),
+        Ob(s, f, B(6, 'length of s'), ('pin', 0x80), RET(0), ('pin', 0x20), 'length of s is 128 or more', rule=R),
+        # 30 20 02 10 <16 bytes> 02 LL ... with sig_len = 0x22: s starts at offset 22, so LL must be 12
+        Ob(s, f, B(6, 'length of s'), ('pin', 11), RET(0), ('pin', 12), 's ends before the end of the input', rule=R,
+           extra_hyps=[(SL, ('assume', 'eq', 0x22)), (B(1, 'SEQUENCE length byte'), ('pin', 0x20)), (B(4, 'length of r'), ('pin', 0x10))]),
+        Ob(s, f, B(6, 'length of s'), ('pin', 13), RET(0), None, 's extends beyond the end of the input', rule=R,
+           extra_hyps=[(SL, ('assume', 'eq', 0x22)), (B(1, 'SEQUENCE length byte'), ('pin', 0x20)), (B(4, 'length of r'), ('pin', 0x10))]),
+        Ob(s, f, B(4, 'length of r'), ('pin', 0x1D), RET(0), ('pin', 0x10), 'r leaves no room for the header of s', rule=R,
+           extra_hyps=[(SL, ('assume', 'eq', 0x22)), (B(1, 'SEQUENCE length byte'), ('pin', 0x20))]),
+    ]
+    return obs
+
+
+def asn1_integer_sign(chk):
+    """X.690 8.3: an INTEGER is two's complement; r and s are positive, so a value whose first significant byte has bit 7 set needs a
+    leading 0x00 byte, and zero is encoded as one byte.  Decided by partial evaluation of asn1_int_length() (raw -> ASN.1 converter)
+    for a one-byte value b: length 2 for b >= 0x80, else 1."""
+    from ..oblig import ByteLoad
+    from .. import fold
+    R = 'ecdsa-asn1-integer-sign'
+    src, fn = 'src/ec/ecdsa_rta.c', 'asn1_int_length'
+    U = oblig.funit(src)
+    if fn not in U.funcs:
+        raise AnalysisBroken('%s vanished from %s' % (fn, src))
+    F = U.func(fn)
+    ps = F.f['params']
+    lds = []
+    for k in range(4):
+        st = ByteLoad(0, k).sites(U, fn)
+        if st:
+            lds.append(st[0][1])
+    if not lds:
+        raise AnalysisBroken('%s: no load of the value bytes' % fn)
+    for b in (0x00, 0x01, 0x7F, 0x80, 0x81, 0xFF):
+        hy = [dict(kind='assume', n=ps[1]['n'], ty=ps[1]['ty'], pred='eq', value=1, param=True)] + \
+             [dict(kind='assume', n=ld['n'], ty='i8', pred='eq', value=b if b < 128 else b - 256) for ld in lds]
+        Fo = U.optimise(fn, hy, ())
+        want = 2 if b >= 0x80 else 1
+        okk, det = fold.expect_ret_const(Fo, want)
+        inst = '%s: the one-byte value %#04x is encoded over %d byte(s)' % (fn, b, want)
+        if okk:
+            chk.ok(R, inst, src)
+        else:
+            chk.violation(R, inst, src, det + (': the INTEGER would be negative' if want == 2 else ': non-minimal encoding'), key='%s %d' % (R, b))
+
+
 def rs_nonzero(chk):
     """FIPS 186-4 6.4.2 step 1: r and s must both lie in [1, n-1].  decode_mod enforces < n; each decoded value must
     additionally be zero-tested, and a positive test must force rejection."""
@@ -235,6 +306,8 @@ def run(tier):
                        trusted=['reference constants in sa/tab.py (self-checked: generators satisfy the curve equation)', 'clang/opt 14'])
     constants(chk)
     oblig.run_obligations(chk, obligations())
+    oblig.run_obligations(chk, asn1_sig_obligations())
+    asn1_integer_sign(chk)
     rs_nonzero(chk)
     muladd_zero_test(chk)
     rfc6979_inputs(chk)
